@@ -20,6 +20,7 @@ import (
 	"math/big"
 	"strconv"
 	"strings"
+	"sync"
 	"unicode"
 	"unicode/utf8"
 
@@ -755,6 +756,43 @@ func Run(r *vh.Run) {
 		if len(c.Fails) == 0 && !bytes.Equal(k, refKey(want, ix)) {
 			c.Oracle("phrase-to-key-differs-from-documented-derivation", "%q index %d", phrase, ix)
 		}
+		r.Add(c)
+	}
+
+	// the same (seed, index) derives the same key when many derivations run at once
+	for round := 0; round < r.Pick(3, 30); round++ {
+		const workers = 16
+		type job struct {
+			seed [32]byte
+			ix   uint64
+		}
+		jobs := make([]job, workers*64)
+		for i := range jobs {
+			rng.Bytes(jobs[i].seed[:])
+			jobs[i].ix = rng.U64()
+		}
+		got := make([][]byte, len(jobs))
+		var wg sync.WaitGroup
+		for w := 0; w < workers; w++ {
+			wg.Add(1)
+			go func(w int) {
+				defer wg.Done()
+				for i := w; i < len(jobs); i += workers {
+					s := jobs[i].seed
+					got[i] = wallet.KeyFromSeed(&s, jobs[i].ix)
+				}
+			}(w)
+		}
+		wg.Wait()
+		c := &vh.Case{Name: fmt.Sprintf("kdf-concurrent-%d", round), Nontrivial: true, Tags: []string{"kind:kdf-concurrent"}}
+		for i, j := range jobs {
+			if !bytes.Equal(got[i], refKey(j.seed, j.ix)) {
+				c.Oracle("keyfromseed-wrong-under-concurrent-calls", "KeyFromSeed(%x, %d) returned %x while %d other derivations were running; the documented derivation gives %x", j.seed, j.ix, got[i], workers-1, []byte(refKey(j.seed, j.ix)))
+				break
+			}
+		}
+		c.Op(fmt.Sprintf("concurrent-kdf %d", len(jobs)), "ok")
+		c.Model = ""
 		r.Add(c)
 	}
 
